@@ -47,3 +47,42 @@ package refopts
 //@   ensures result != nil ==> v.rgb.topLevelGroup.filter == old(v.rgb.topLevelGroup.filter)
 
 //@ property C06: (*filterValue).interpretFlexibly (*filterValue).Set (*filterGroupValue).Set
+
+// ---------------------------------------------------------------- ref_group.go: collectSymbols (C07)
+// The result for a group is composed of: its own symbol if it matched (first),
+// then the complete results of its subgroups in order, then its Other bucket
+// if it has rules of its own, matched, has an Other group and no subgroup
+// contributed anything. A group without rules of its own matches iff some
+// subgroup does (it is their union) and then lists its own symbol first. The
+// clauses below state this composition for one level; the recursive calls are
+// used through this same contract. Loop 0 is the rule-less branch, loop 1 the
+// branch of a group with its own filter.
+//@ func (*refGroup).collectSymbols
+//@   pure
+//@   loop 0 step walk == (prev(walk) || w)
+//@   loop 0 step len(ss) == 0 ==> len(symbols) == prev(len(symbols))
+//@   loop 0 step len(ss) > 0 && prev(len(symbols)) > 0 ==> len(symbols) == prev(len(symbols)) + len(ss)
+//@   loop 0 step len(ss) > 0 && prev(len(symbols)) == 0 ==> len(symbols) == 1 + len(ss) && symbols[0] == rg.Symbol
+//@   loop 0 step forall k int :: 0 <= k && k < len(ss) ==> symbols[len(symbols) - len(ss) + k] == ss[k]
+//@   loop 0 step forall k int :: 0 <= k && k < prev(len(symbols)) ==> symbols[k] == prev(symbols)[k]
+//@   loop 0 invariant len(symbols) > 0 ==> symbols[0] == rg.Symbol
+//@   loop 1 step len(symbols) == prev(len(symbols)) + len(ss)
+//@   loop 1 step forall k int :: 0 <= k && k < len(ss) ==> symbols[len(symbols) - len(ss) + k] == ss[k]
+//@   loop 1 step forall k int :: 0 <= k && k < prev(len(symbols)) ==> symbols[k] == prev(symbols)[k]
+//@   loop 1 invariant len(symbols) >= 1 && symbols[0] == rg.Symbol
+//@   ensures rg.filter != nil && !apply(rg.filter, refname) ==> !result0 && len(result1) == 0
+//@   ensures rg.filter != nil && apply(rg.filter, refname) ==> result0 && len(result1) >= 1 && result1[0] == rg.Symbol
+//@   ensures rg.filter == nil && len(result1) > 0 ==> result1[0] == rg.Symbol
+//@   ensures rg.filter != nil && apply(rg.filter, refname) && rg.otherRefGroup != nil && len(symbols) == 1 ==> len(result1) == 2 && result1[1] == rg.otherRefGroup.Symbol
+//@   ensures rg.filter != nil && apply(rg.filter, refname) && (rg.otherRefGroup == nil || len(symbols) != 1) ==> same(result1, symbols)
+
+// Categorize: the walk decision and symbols of the top-level group; a
+// reference that is not walked is additionally tallied under 'Ignored'.
+//@ func (*refGrouper).Categorize
+//@   pure
+//@   call 0 collectSymbols as cs
+//@   ensures result0 == cs0
+//@   ensures !cs0 && refGrouper.ignoredRefGroup != nil ==> len(result1) == len(cs1) + 1 && result1[len(result1)-1] == refGrouper.ignoredRefGroup.Symbol
+//@   ensures cs0 || refGrouper.ignoredRefGroup == nil ==> same(result1, cs1)
+
+//@ property C07: (*refGroup).collectSymbols (*refGrouper).Categorize
